@@ -25,6 +25,7 @@
                               (the code's own "P <= 0" tests are exactly a positive-definiteness test)
      levinson_not_pd_raises   r0 > 0 and r NOT positive definite  =>  LEVINSON raises "singular matrix" unless
                               singularity is allowed  (the property's clause; DESIGN.md stretch item)
+     levinson_allow_returns   ... and with allow_singularity=True it returns for every r and every order <= len(r)-1
                               The guard r0 > 0 is needed: r = [-1, 2] is not positive definite, yet P_1 = -1*(1-4) = 3 > 0
                               and the recursion returns (Example levinson_negative_r0_returns; the implementation does
                               the same).  r0 <= 0 is outside the property's quantifier (autocorrelation sequences).
@@ -139,6 +140,10 @@ Theorem levinson_not_pd_raises (r : list F) (p : nat) :
        pos (sumf (S p) (fun i => sumf (S p) (fun j => conj (c i) * rz r (Z.of_nat i - Z.of_nat j) * c j)))) ->
   levinson r p false = None.
 Proof. exact (levinson_not_pd_raises_thm r p). Qed.
+
+Theorem levinson_allow_returns (r : list F) (p : nat) : (p <= length r - 1)%nat ->
+  exists a P k, levinson r p true = Some (a, P, k).
+Proof. exact (levinson_allow_returns_thm r p). Qed.
 End C10_order.
 
 (* non-vacuity: a concrete complex positive-definite sequence meets the hypotheses and the
@@ -188,3 +193,4 @@ Print Assumptions levinson_pd_converse.
 Print Assumptions levinson_pd_iff.
 Print Assumptions levinson_returns_iff_pd.
 Print Assumptions levinson_not_pd_raises.
+Print Assumptions levinson_allow_returns.
